@@ -717,8 +717,15 @@ Section TreeProofs.
 
   (** restore_checkpoint helper *)
   Theorem tree_roundtrip_restore_checkpoint (m model : nmodule) :
-    m_graph model = m_graph m -> restore_checkpoint (orbax_save m) model = m.
-  Proof. intro Hg. unfold restore_checkpoint, nnx_merge, nnx_split, orbax_save, nnx_state. cbn. rewrite Hg. destruct m; reflexivity. Qed.
+    NoDup (map fst (m_params m)) ->
+    m_graph model = m_graph m ->
+    map fst (m_params model) = map fst (m_params m) ->
+    restore_checkpoint (orbax_save m) model = Some m.
+  Proof.
+    intros ND Hg Hp. unfold restore_checkpoint, orbax_save, nnx_state, nnx_split.
+    rewrite (orbax_restore_ok _ ND (m_params m)) by (try exact Hp; apply incl_refl).
+    cbn [option_map fst]. unfold nnx_merge. rewrite Hg. destruct m; reflexivity.
+  Qed.
 
   Lemma tree_eq_of_leaves (t1 : tree) : forall t2 : tree,
     map fst t1 = map fst t2 -> map snd t1 = map snd t2 -> t1 = t2.
@@ -740,14 +747,35 @@ Section TreeProofs.
     let out (k : nmodule) x := fwd (m_graph k) (m_params k) x in
     (forall x, out (load_pickle (save_pickle m) (m_graph fresh_m)) x = out m x) /\
     (forall x, option_map (fun k => out k x) (orbax_reload (orbax_save m) fresh_m) = Some (out m x)) /\
-    (forall x, out (restore_checkpoint (orbax_save m) fresh_m) x = out m x).
+    (forall x, option_map (fun k => out k x) (restore_checkpoint (orbax_save m) fresh_m) = Some (out m x)).
   Proof.
     intros ND Hg Hp out. repeat split; intro x.
     - rewrite Hg, tree_roundtrip_pickle. reflexivity.
     - rewrite (tree_roundtrip_orbax m fresh_m ND Hg Hp). reflexivity.
-    - rewrite (tree_roundtrip_restore_checkpoint m fresh_m Hg). reflexivity.
+    - rewrite (tree_roundtrip_restore_checkpoint m fresh_m ND Hg Hp). reflexivity.
   Qed.
 End TreeProofs.
+
+(** restore without a target (the code before the repair) permutes the layers of a module with
+    more than ten list entries: '10' sorts before '2' *)
+Definition chain (n : nat) : tree Z := map (fun i => ([i], Z.of_nat i)) (seq 0 n).
+Lemma restore_untargeted_refuted :
+  exists m model : nmodule Z unit,
+    NoDup (map fst (m_params m)) /\ m_graph model = m_graph m /\ map fst (m_params model) = map fst (m_params m) /\
+    restore_untargeted (orbax_save m) model <> m.
+Proof.
+  exists {| m_graph := tt; m_params := chain 11 |}, {| m_graph := tt; m_params := map (fun e => (fst e, 0%Z)) (chain 11) |}.
+  split; [|split; [reflexivity|split; [reflexivity|]]].
+  - vm_compute. repeat (constructor; [cbn; intuition discriminate|]). constructor.
+  - vm_compute. discriminate.
+Qed.
+(** ... while for at most ten entries it happens to be the identity (why the defect stayed unseen) *)
+Lemma restore_untargeted_small : forall n, n <= 10 ->
+  restore_untargeted (orbax_save {| m_graph := tt; m_params := chain n |}) {| m_graph := tt; m_params := chain n |}
+  = {| m_graph := tt; m_params := chain n |}.
+Proof.
+  intros n Hn. do 11 (destruct n as [|n]; [vm_compute; reflexivity|]). lia.
+Qed.
 
 (** the hypotheses are satisfiable *)
 Example tree_roundtrip_example :
